@@ -12,7 +12,7 @@ def one(name):
         r=subprocess.run(['patch','-p1','-s','-d',dst], stdin=open(d+'/patch.diff'), capture_output=True, text=True)
         if r.returncode: return ["%s PATCH-FAILED"%name]
         env=dict(os.environ, VP_REPO=dst, VP_NO_EVIDENCE='1')
-        for p in m['properties']:
+        for p in [q for q in m['properties'] if not os.environ.get('ONLY_PROPS') or q in os.environ['ONLY_PROPS'].split(',')]:
             r=subprocess.run(['/verif/vcheck',p], env=env, capture_output=True, text=True, cwd='/verif')
             lines=[l for l in r.stdout.splitlines() if l.strip()]
             bad=[l.strip()[:400] for l in lines if l.startswith('ANALYSIS-ERROR') or (l.startswith('  ') and '--' in l) or 'witness' in l][:4]
